@@ -923,9 +923,22 @@ class IfModifiedSince(Suite):
                         deltas = IMS_DELTAS if fmt in IMS_VALID + IMS_OBSOLETE else [-86400, -1, 0, 1, 86400]
                         for d in deltas:
                             yield {'stack': stack, 'target': ti, 'range': rng, 'format': fmt, 'delta': d}
+                            if fmt in IMS_VALID and d in (-3600, -1, 0, 1, 3600, -86400, 86400):
+                                # HTTP dates are GMT: the server's local time zone must not matter
+                                for tz in ('XXX5', 'YYY-3'):
+                                    yield {'stack': stack, 'target': ti, 'range': rng, 'format': fmt, 'delta': d, 'tz': tz}
                     yield {'stack': stack, 'target': ti, 'range': rng, 'format': 'echo', 'delta': 0}
+                    yield {'stack': stack, 'target': ti, 'range': rng, 'format': 'echo', 'delta': 0, 'tz': 'YYY-3'}
 
     def run(self, case):
+        from vf.core import local_timezone
+        with local_timezone(case.get('tz')):
+            info = self._run(case)
+        if case.get('tz'):
+            info = Info(info.nontrivial, list(info.labels) + ['server_tz:' + case['tz']])
+        return info
+
+    def _run(self, case):
         sb = self.sb
         stack = case['stack']
         path, fname, fbkey, frac = IMS_TARGETS[case['target']]
